@@ -51,6 +51,17 @@ fn apply_edits(src: &str, start: usize, end: usize, mut edits: Vec<Edit>) -> Str
     out
 }
 
+/// the block body of the first closure expression found inside `e` (arguments of calls, `Box::new(..)`, parentheses)
+fn first_closure_block(e: &Expr) -> Option<&Block> {
+    match e {
+        Expr::Closure(c) => match &*c.body { Expr::Block(b) => Some(&b.block), _ => None },
+        Expr::Paren(p) => first_closure_block(&p.expr),
+        Expr::Call(c) => c.args.iter().find_map(|a| first_closure_block(a)),
+        Expr::MethodCall(m) => first_closure_block(&m.receiver).or_else(|| m.args.iter().find_map(|a| first_closure_block(a))),
+        _ => None,
+    }
+}
+
 fn norm(s: &str) -> String {
     let mut out = String::new();
     let mut last_space = false;
@@ -88,6 +99,7 @@ struct FnCfg {
     frag_name: Option<String>,    // R11: the kept statements become a function of their declared free variables
     frag_params: Option<String>,
     frag_ret: Option<String>,
+    frag_generics: Option<String>,
     ret_name: String,
     keep_name: bool,
     no_eager_iter: bool,
@@ -108,6 +120,10 @@ struct FnCfg {
     custom_iters: Vec<String>,
     /// R17: `X.as_mut()` / `X.as_ref()` on these Box-typed locals becomes the reborrow `&mut *X` / `&*X`
     box_receivers: Vec<String>,
+    /// R25: `X.borrow_mut()` / `X.borrow()` (optionally followed by `.as_mut()` / `.as_ref()`) on these `Rc<RefCell<Box<dyn ..>>>`
+    /// handles becomes the reborrow `(&mut *X)` / `(&*X)`: the item is read with X bound to the cell's content, held
+    /// exclusively while the item runs
+    shared_cells: Vec<String>,
     /// R18: `(self.F)(args)` for an opaque closure-typed field F becomes `vx_call_F(&self.F, args)`, a function whose
     /// contract is stated (assumed) in the unit
     opaque_calls: Vec<String>,
@@ -600,6 +616,29 @@ impl<'a> R<'a> {
                         self.rule("R17:box-reborrow");
                         return Some(if name == "as_mut" { format!("(&mut *{})", id) } else { format!("(&*{})", id) });
                     }
+                }
+            }
+        }
+        // R25: a shared cell is read as its content, borrowed for the duration of the expression
+        if !self.fc.shared_cells.is_empty() && mc.args.is_empty() && (name == "borrow_mut" || name == "borrow" || name == "as_mut" || name == "as_ref") {
+            let mut inner: &Expr = strip_paren(&mc.receiver);
+            let mut mutable = name == "borrow_mut" || name == "as_mut";
+            let mut saw_borrow = name == "borrow_mut" || name == "borrow";
+            if !saw_borrow {
+                if let Expr::MethodCall(m2) = inner {
+                    if m2.args.is_empty() && (m2.method == "borrow_mut" || m2.method == "borrow") {
+                        mutable = m2.method == "borrow_mut";
+                        saw_borrow = true;
+                        inner = strip_paren(&m2.receiver);
+                    }
+                }
+            }
+            if saw_borrow {
+                let txt = norm(self.text(inner.span()));
+                if self.fc.shared_cells.iter().any(|n| *n == txt) {
+                    self.rule("R25:shared-cell-as-content");
+                    let r = self.render_expr(inner);
+                    return Some(if mutable { format!("(&mut *{})", r) } else { format!("(&*{})", r) });
                 }
             }
         }
@@ -2166,6 +2205,7 @@ fn main() {
             frag_name: it["frag_name"].as_str().map(|s| s.to_string()),
             frag_params: it["frag_params"].as_str().map(|s| s.to_string()),
             frag_ret: it["frag_ret"].as_str().map(|s| s.to_string()),
+            frag_generics: it["frag_generics"].as_str().map(|s| s.to_string()),
             ret_name: it["ret_name"].as_str().unwrap_or("res").to_string(),
             keep_name: false,
             no_eager_iter: it["no_eager_iter"].as_bool().unwrap_or(false),
@@ -2178,6 +2218,7 @@ fn main() {
             eager_receivers: it["eager_receivers"].as_array().map(|a| a.iter().map(|v| v.as_str().unwrap().to_string()).collect()).unwrap_or_default(),
             custom_iters: it["custom_iters"].as_array().map(|a| a.iter().map(|v| v.as_str().unwrap().to_string()).collect()).unwrap_or_default(),
             box_receivers: it["box_receivers"].as_array().map(|a| a.iter().map(|v| v.as_str().unwrap().to_string()).collect()).unwrap_or_default(),
+            shared_cells: it["shared_cells"].as_array().map(|a| a.iter().map(|v| v.as_str().unwrap().to_string()).collect()).unwrap_or_default(),
             opaque_calls: it["opaque_calls"].as_array().map(|a| a.iter().map(|v| v.as_str().unwrap().to_string()).collect()).unwrap_or_default(),
         };
         let opaque_fields: Vec<String> = it["opaque_fields"]
@@ -2323,6 +2364,14 @@ fn main() {
                             if let Some(pref) = &fc.slice_block {
                                 let mut found_block: Option<&Block> = None;
                                 for st in &b.stmts {
+                                    if let Stmt::Local(l) = st {
+                                        // R11 (closure): the body of the first closure in the initialiser of a `let`
+                                        if !norm(&text[rng(l.span()).0..rng(l.span()).1]).starts_with(norm(pref).as_str()) { continue; }
+                                        if let Some(init) = &l.init {
+                                            found_block = first_closure_block(&init.expr);
+                                        }
+                                        break;
+                                    }
                                     let e = match st { Stmt::Expr(e, _) => e, _ => continue };
                                     if !norm(&text[rng(e.span()).0..rng(e.span()).1]).starts_with(norm(pref).as_str()) { continue; }
                                     found_block = match e {
@@ -2330,7 +2379,8 @@ fn main() {
                                         Expr::While(w) => Some(&w.body),
                                         Expr::Loop(l) => Some(&l.body),
                                         Expr::If(i) => Some(&i.then_branch),
-                                        _ => None,
+                                        // R11 (closure): the body of the first closure among the arguments of a call statement
+                                        other => first_closure_block(other),
                                     };
                                     if let (Some(ib), false) = (found_block, matches!(e, Expr::If(_))) {
                                         // the statements of a loop body keep the loop-body reading of `continue` (R15)
@@ -2346,11 +2396,16 @@ fn main() {
                                     }
                                 }
                             }
-                            if matches!(&sig.output, ReturnType::Type(..)) && fc.slice_before.is_none() && fc.slice_block.is_none() {
+                            // a sliced closure body that ends in an expression and whose fragment declares a bare return type
+                            // (`frag_ret=: T`) returns that expression
+                            let closure_value = fc.slice_block.is_some() && fc.slice_before.is_none()
+                                && fc.frag_ret.as_ref().map(|rt| rt.trim_start().starts_with(':')).unwrap_or(false)
+                                && matches!(b.stmts.last(), Some(Stmt::Expr(_, None)));
+                            if (matches!(&sig.output, ReturnType::Type(..)) && fc.slice_before.is_none() && fc.slice_block.is_none()) || closure_value {
                                 r.bind_tail = Some(rng(b.span()));
                             }
                             r.body_block = Some(rng(b.span()));
-                            r.unit_fn = matches!(&sig.output, ReturnType::Default) || fc.slice_block.is_some();
+                            r.unit_fn = (matches!(&sig.output, ReturnType::Default) || fc.slice_block.is_some()) && !closure_value;
                             let inner = r.render_block_inner(b);
                             if r.tail_bound {
                                 format!("{{ /*@BEGIN@*/{} }}", inner)
@@ -2372,8 +2427,10 @@ fn main() {
                     };
                     let body_inner = body_text.trim();
                     let body_inner = &body_inner[1..body_inner.len() - 1];
+                    // a fragment of a generic function declares the type parameters it uses: `frag_generics=<T: LabelType>`
+                    let generics = fc.frag_generics.clone().unwrap_or_default();
                     (
-                        format!("{}fn {}({}){} /*@SIG@*/ {{ {} {} }}", vis, fname, params, ret_sig, body_inner, ret_tail),
+                        format!("{}fn {}{}({}){} /*@SIG@*/ {{ {} {} }}", vis, fname, generics, params, ret_sig, body_inner, ret_tail),
                         fname.clone(),
                     )
                 } else {
